@@ -97,6 +97,41 @@ PROPS["C18"] = dict(
                "and after every step the full observation of every table of BOTH clients, which is how table and client isolation, "
                "clearing and re-creation are decided.",
 )
+PROPS["C15"] = dict(
+    title="emulated failures fail every data call, change nothing, are reversible",
+    quick=[G("M_MODE")],
+    thorough=[G("M_MODE", cfg="M_MODE_t")],
+    own=[parts("Outcome", "ErrClass", "Data", "Base", "Desc", "Catalog")],
+    level="fault_enumeration",
+    design_ref="DESIGN.md 6 C15",
+    level_text="Every kind of data operation (single-item, Query, Scan, batches of one and two requests, TransactWriteItems) is issued under "
+               "every failure mode reachable by toggle sequences (none / internal-server / deprecated force-failure, deactivation) in every "
+               "state of a bounded table; TLC requires the configured error class, unprocessed = all requests for a batch write under "
+               "internal-server failure, and an unchanged full observation after every failing call and after deactivation.",
+)
+PROPS["C19"] = dict(
+    title="batch operations equal their item-by-item decomposition",
+    quick=[G("M_BATCH"), G("M_BATCH", cfg="M_BGET")],
+    thorough=[G("M_BATCH", cfg="M_BATCH_t"), G("M_BATCH", cfg="M_BGET")],
+    own=[parts("Outcome", "ErrClass", "Data", "Unprocessed", "Base", "Desc", "NoCrash")],
+    design_ref="DESIGN.md 6 C19",
+    level_text="Every BatchWriteItem of one or two requests over two tables (puts, deletes, repeated tables, absent keys) and BatchGetItem of "
+               "present and absent keys is issued in every reachable state; the specification defines the batch as the fold of the single "
+               "operations, TLC checks on the specification that request order on distinct keys is irrelevant, and judges responses and "
+               "the full post-state of both tables on both clients.",
+)
+PROPS["C17"] = dict(
+    title="the SDK v1 and SDK v2 clients are behaviourally equivalent",
+    quick=[G("M_MODE"), G("M_LIFE", cfg="M_LIFE_b"), G("M_IDX"), G("M_BATCH", cfg="M_BGET")],
+    thorough=[G("M_MODE", cfg="M_MODE_t"), G("M_LIFE", cfg="M_LIFE_t"), G("M_IDX", cfg="M_IDX_t"), G("M_BATCH", cfg="M_BGET"),
+              G("M_C01a"), G("M_COND"), G("M_FAIL"), G("M_READ"), G("M_READ", cfg="M_WALK")],
+    own=[SDK],
+    design_ref="DESIGN.md 6 C17",
+    level_text="The same operation sequences - every transition of the lifecycle, failure-mode, index and batch models (thorough: of all "
+               "models) - are issued through the aws-sdk-go client and the aws-sdk-go-v2 client; at every step TLC compares the two normalised "
+               "answers (error class, items in order, counts, pagination keys, descriptions, unprocessed sets) in addition to judging each "
+               "against the specification.",
+)
 
 # properties deliberately not claimed, with the reason (none so far: unbuilt ones get a work-in-progress reason)
 NOT_CLAIMED = {}
